@@ -30,7 +30,7 @@ func c01Meta(c *Ctx) map[string]string {
 	md := map[string]string{}
 	n := c.Rng.Intn(5)
 	names := []string{"X-Amz-Meta-A", "X-Amz-Meta-Long-Name-Here", "Content-Type", "Content-Encoding", "Content-Disposition", "X-Amz-Meta-Z9"}
-	vals := []string{"v", "text/plain", "application/octet-stream", "gzip", `attachment; filename="x.txt"`, "value with spaces", "ümläut", "a=b&c=d", strings.Repeat("x", 200)}
+	vals := []string{"", "v", "text/plain", "application/octet-stream", "gzip", `attachment; filename="x.txt"`, "value with spaces", "ümläut", "a=b&c=d", strings.Repeat("x", 200)}
 	for i := 0; i < n; i++ {
 		md[names[c.Rng.Intn(len(names))]] = vals[c.Rng.Intn(len(vals))]
 	}
@@ -65,7 +65,7 @@ func runC01(c *Ctx) {
 		sizes = append(sizes, 65536, 1<<20, 3<<20)
 		nRand = 150
 	}
-	c.R.Rule = "bodies of sizes {0,1,2,63,64,65,4095..4097,32767..32769 (+64KiB,1MiB,3MiB thorough)} ∪ random, arbitrary bytes × keys from a grammar (ASCII, multi-byte UTF-8, characters needing URL escaping, nested '/') × 0–4 metadata headers × 6 backend instances × {HTTP PUT, browser-form POST, copy, Backend API} × integrity check on/off; each upload is followed by GET and HEAD whose full observation is compared with the Lean model (body, length, ETag = Lean MD5 of the body, metadata, version) and with the spec clause 'every sent header is returned unchanged'; non-trivial = distinct (backend, path, size, key)"
+	c.R.Rule = "bodies of sizes {0,1,2,63,64,65,4095..4097,32767..32769 (+64KiB,1MiB,3MiB thorough)} ∪ random, arbitrary bytes × keys from a grammar (ASCII, multi-byte UTF-8, characters needing URL escaping, nested '/') × 0–4 metadata headers (values incl. empty, re-sent empty or changed on a re-upload of the same bytes) × 6 backend instances × {HTTP PUT, browser-form POST, copy, Backend API} × integrity check on/off; each upload is followed by GET and HEAD whose full observation is compared with the Lean model (body, length, ETag = Lean MD5 of the body, metadata, version) and with the spec clause 'every sent header is returned unchanged'; non-trivial = distinct (backend, path, size, key)"
 	for _, kind := range c.kinds(impl.AllKinds) {
 		for _, integ := range []bool{true, false} {
 			inst, err := impl.New(kind, c.Tmp, gofakes3.WithIntegrityCheck(integ))
@@ -173,6 +173,16 @@ func runC01(c *Ctx) {
 				if path == "put" && sz <= 100000 && c.Rng.Intn(3) == 0 {
 					md2 := c01Meta(c)
 					md2["X-Amz-Meta-Rev"] = fmt.Sprint(c.Rng.Intn(1000))
+					// headers of the first upload sent again, some with another and some with an EMPTY value
+					// (an empty value is a value: the previous one must not come back)
+					for k := range md {
+						switch c.Rng.Intn(3) {
+						case 0:
+							md2[k] = ""
+						case 1:
+							md2[k] = "second"
+						}
+					}
 					h2 := map[string]string{}
 					for k, v := range md2 {
 						h2[k] = v
